@@ -43,6 +43,12 @@ def build(rng, name):
             def mk(tot, mag, n):
                 return lambda a, env: None if abs(Fraction(h2f(a[1:])) - tot) <= Fraction(9, 2 ** 53) * mag + Fraction(4 * n + 4, 2 ** 1074) else "sum %s differs from the exact sum %s beyond rounding" % (a, float(tot))
             b.emit("dsum " + d, mk(tot, mag, len(ds[d])))
+    if rng.random() < 0.25:          # magnitudes more than 2^53 apart: the small addends do not move the running sum, only the compensation keeps them
+        big = rng.choice([1e17, -1e17, 2.0 ** 60, 3e18]); small = rng.choice([1.0, 0.5, 3.0])
+        d0 = rng.choice(["d", "e"]); seq = [big] + [small] * rng.choice([64, 300, 1024]) + ([-big] if rng.random() < 0.5 else [])
+        for v in seq: b.emit("dadd %s %s" % (d0, f2h(v)), "ok"); ds[d0].append(v)
+        tot = sum(Fraction(x) for x in ds[d0]); mag = sum(abs(Fraction(x)) for x in ds[d0]); n0 = len(ds[d0])
+        b.emit("dsum " + d0, lambda a, env, tot=tot, mag=mag, n0=n0: None if abs(Fraction(h2f(a[1:])) - tot) <= Fraction(9, 2 ** 53) * mag + Fraction(4 * n0 + 4, 2 ** 1074) else "sum %s differs from the exact sum %s beyond rounding" % (a, float(tot)))
     for _ in range(rng.randint(3, 40)):
         op = rng.choice(["add"] * 6 + ["adds", "query", "query", "query", "merge", "selfmerge"])
         d = rng.choice(["d", "d", "e"])
@@ -54,6 +60,7 @@ def build(rng, name):
             for v in rand_values(rng, rng.choice([5, 30]), -3, 3, zeros=0.02):
                 if v == 0: v = 0.0
                 b.emit("dadd %s %s" % (d, f2h(v)), "ok"); ds[d].append(v)
+        elif op == "adds" and False: pass
         elif op == "query": query(d)
         elif op == "merge":
             o = "e" if d == "d" else "d"; b.emit("dmerge %s %s" % (d, o), "ok"); ds[d] = ds[d] + ds[o]; query(d); query(o)
